@@ -152,7 +152,8 @@ def _sep(emit, name, rng, base, first):
     if name == "L1_plus_L2":
         opts["l1_ratio"] = float(rng.choice([0.0, 1e-3, 0.5, 1.0]))
     if name == "LogSumPenalty":
-        opts["eps"] = float(10 ** rng.uniform(-1.5, 1))
+        # (a quarter of the cases with a tiny eps: the bracket of the prox's root finder is then ~ alpha*step/eps wide)
+        opts["eps"] = float(10 ** rng.uniform(-1.5, 1)) if rng.random() < 0.75 else float(10 ** rng.uniform(-10, -3))
     pen, ref, prm = C.make_penalty(name, rng, p, alpha, positive=positive, **opts)
     cp = C.compiled(pen)
     ps = _psmall(prm)
@@ -161,7 +162,21 @@ def _sep(emit, name, rng, base, first):
         for j in range(p if "weights" in prm else 1):
             wt = float(prm["weights"][j]) if "weights" in prm else 1.0
             scope = _admissible(name, prm, s, wt)
-            for x in _xs(rng, _thresholds(name, prm, s, wt)):
+            thr = _thresholds(name, prm, s, wt)
+            if name in ("LogSumPenalty", "L0_5", "L2_3"):
+                # the point where the reference prox jumps away from zero, located by bisection on x (it is not one of
+                # the closed-form landmarks above when the penalty is very steep at 0, e.g. log-sum with a tiny eps)
+                lo, hi = 0.0, max(1.0, 10 * max(thr + [1.0]))
+                while ref.prox_1d(hi, s, j)[0] == 0.0 and hi < 1e12:
+                    hi *= 10
+                for _ in range(60):
+                    mid = 0.5 * (lo + hi)
+                    if ref.prox_1d(mid, s, j)[0] == 0.0:
+                        lo = mid
+                    else:
+                        hi = mid
+                thr = thr + [hi, 0.97 * hi, 1.03 * hi]
+            for x in _xs(rng, thr):
                 k += 1
                 cid = "%s/e%d" % (base, k)
                 x = float(x)
@@ -267,8 +282,10 @@ def _vec(emit, name, rng, base, first):
     p = int(rng.integers(1, 12))
     alpha = float(10 ** rng.uniform(-2, 1))
     if name == "SLOPE":
-        style = str(rng.choice(["decreasing", "constant", "ties"]))
+        style = str(rng.choice(["decreasing", "constant", "ties", "steep"]))
         al = np.sort(rng.uniform(0.1, 2.0, size=p))[::-1] * alpha
+        if style == "steep":
+            al = np.sort(10 ** rng.uniform(-2, 0.3, size=p))[::-1] * alpha
         if style == "constant":
             al[:] = alpha
         if style == "ties" and p > 2:
@@ -287,6 +304,15 @@ def _vec(emit, name, rng, base, first):
             x[1] = x[0]          # ties in |x|
         if k == 2 and p > 1:
             x[1] = -x[0]
+        if name == "SLOPE" and k in (3, 4, 5):
+            # magnitudes around the thresholds, rank by rank: the regime where the answer is decided by the partial
+            # sums of the sorted sequence and not by the largest entry alone
+            lo, hi = {3: (0.7, 1.3), 4: (0.9, 1.0), 5: (0.3, 0.99)}[k]
+            mags = s * np.asarray(prm["alphas"]) * rng.uniform(lo, hi, size=p)
+            if k == 5:
+                mags = np.full(p, 0.97 * s * float(np.max(prm["alphas"])))     # all just below the largest threshold
+                mags *= rng.uniform(0.9, 1.0, size=p)
+            x = (mags * rng.choice([-1.0, 1.0], size=p))[rng.permutation(p)]
         cid = "%s/e%d" % (base, k)
         try:
             u = np.asarray(cp.prox_vec(np.ascontiguousarray(x), s), float)
